@@ -64,7 +64,8 @@ class TLCResult:
         """PrintT(<<"tag", ...>>) lines parsed into python lists."""
         res = []
         for p in self.prints:
-            if p.startswith('<<"%s"' % tag):
+            # (TLC prints a tuple that does not fit on one line as `<< "tag",` + one element per line)
+            if re.match(r'<<\s*"%s"' % re.escape(tag), p):
                 res.append(parse_tla_value(p))
         return res
 
